@@ -145,6 +145,14 @@ def build():
     def call_mp(m, func, args, kwargs, node):
         # len({pd[0] for pd in pattern_defs}) != len(pattern_defs)  <=>  not names_unique(pattern_defs)
         if isinstance(func, VPy) and func.obj == ("builtin", "len") and isinstance(args[0], VPy) and isinstance(args[0].obj, tuple) and args[0].obj[0] == "setcomp":
+            import ast as _ast
+            sc = args[0].obj[1]
+            # structural check: {<x>[0] for <x> in pattern_defs} -- the set of the *names* (first components) of exactly this argument
+            g0 = sc.generators[0] if len(sc.generators) == 1 else None
+            if not (g0 is not None and not g0.ifs and isinstance(g0.target, _ast.Name) and isinstance(g0.iter, _ast.Name) and g0.iter.id == "pattern_defs"
+                    and isinstance(sc.elt, _ast.Subscript) and isinstance(sc.elt.value, _ast.Name) and sc.elt.value.id == g0.target.id
+                    and isinstance(sc.elt.slice, _ast.Constant) and sc.elt.slice.value == 0):
+                raise EngineError("set comprehension other than the set of pattern names")
             sv = m.env["pattern_defs"]
             n = z3.Int(fresh_name("distinct_names"))
             m.ctx.assume(z3.And(n >= 0, n <= z3.Length(sv.term), (n == z3.Length(sv.term)) == uniq(sv.term)))
